@@ -217,3 +217,39 @@ def krstrip(r0, r1, c0, c1, e_rows, e_cols, styled, aggressive, qx, qy, **kw):
     t.rstrip(aggressive=aggressive)
     idem = t.serialize() == xml and t.height == eh and t.width == ew
     return (not (ok and idem)), f"rstrip: size {t.width}x{t.height} expected {ew}x{eh}; value {t.get_value((qx, qy))!r} expected {e!r}; idempotent {idem}"
+
+
+def _norm(v, n):
+    return v + n if v < 0 else v
+
+
+def kget_area_negative_rows(r0, r1, y, tt, x, z, j, **kw):
+    t = mktab(r0, r1, 1, 1)
+    h, w = r0 + r1, 2
+    a = t.get_values((x, y, z, tt))
+    nn = (_norm(x, w), _norm(y, h), _norm(z, w), _norm(tt, h))
+    b = t.get_values(nn)
+    ca = t.get_cells((x, y, z, tt))
+    ra = t.get_rows((x, y, z, tt))
+    ok = a == b and len(ca) == len(b) and (j >= len(b) or len(ca[j]) == len(b[j])) and len(ra) == len(b) and (j >= len(ra) or ra[j].y == nn[1] + j)
+    return (not ok), f"area {(x, y, z, tt)} -> {a} but {nn} -> {b}; get_cells {len(ca)} rows, get_rows {len(ra)} rows"
+
+
+def kget_area_negative_cols(c0, c1, x, z, i, **kw):
+    t = mktab(1, 1, c0, c1)
+    w = c0 + c1
+    a = t.get_values((x, 0, z, -1))
+    b = t.get_values((_norm(x, w), 0, _norm(z, w), 1))
+    cols = t.get_columns((x, z))
+    colsb = t.get_columns((_norm(x, w), _norm(z, w)))
+    ok = a == b and len(cols) == len(colsb) and (i >= len(cols) or cols[i].x == colsb[i].x)
+    return (not ok), f"columns {(x, z)}: {a} vs {b}; get_columns {len(cols)} vs {len(colsb)}"
+
+
+def kget_columns_range_small(c0, c1, x, z, i, four, **kw):
+    t = mktab(1, 1, c0, c1)
+    w = c0 + c1
+    cols = t.get_columns((x, 0, z, 1)) if four else t.get_columns((x, z))
+    exp_n = max(0, min(z, w - 1) - x + 1)
+    ok = len(cols) == exp_n and (i >= len(cols) or (cols[i].x == x + i and cols[i].repeated is None))
+    return (not ok), f"get_columns({(x, 0, z, 1) if four else (x, z)}) on width {w}: columns {[c.x for c in cols]}, expected {list(range(x, x + exp_n))}"
